@@ -550,3 +550,149 @@ func VerifHTMLTableSections(n int) {
 	vAssert(rhEq(got, want), "same row groups: "+string(doc)+" => "+string(out))
 	vReach("end")
 }
+
+// Document mode (HTML 13.2.6.4.1 "the initial insertion mode"), restricted to the public identifiers below: the
+// doctype selects quirks, limited-quirks or no-quirks mode, which changes layout (box sizing of table cells, line
+// heights, the body height). rdMode returns 'q', 'l' or 'n' for the first doctype of doc ('q' when there is none).
+func rdMode(doc []byte) byte {
+	lower := func(b []byte) string {
+		o := make([]byte, len(b))
+		for i, c := range b {
+			if 'A' <= c && c <= 'Z' {
+				c += 32
+			}
+			o[i] = c
+		}
+		return string(o)
+	}
+	i := 0
+	for i < len(doc) && rhWS(doc[i]) {
+		i++
+	}
+	if i+9 > len(doc) || lower(doc[i:i+9]) != "<!doctype" {
+		return 'q'
+	}
+	j := i + 9
+	for j < len(doc) && doc[j] != '>' {
+		j++
+	}
+	body := doc[i+9 : j]
+	k := 0
+	for k < len(body) && rhWS(body[k]) {
+		k++
+	}
+	s := k
+	for k < len(body) && !rhWS(body[k]) {
+		k++
+	}
+	if lower(body[s:k]) != "html" {
+		return 'q'
+	}
+	readQuoted := func() (string, bool) {
+		for k < len(body) && rhWS(body[k]) {
+			k++
+		}
+		if k >= len(body) || body[k] != '"' && body[k] != '\'' {
+			return "", false
+		}
+		q := body[k]
+		k++
+		s := k
+		for k < len(body) && body[k] != q {
+			k++
+		}
+		v := lower(body[s:k])
+		if k < len(body) {
+			k++
+		}
+		return v, true
+	}
+	for k < len(body) && rhWS(body[k]) {
+		k++
+	}
+	if k >= len(body) {
+		return 'n'
+	}
+	kw := ""
+	if k+6 <= len(body) {
+		kw = lower(body[k : k+6])
+	}
+	k += 6
+	pub, sys := "", ""
+	hasSys := false
+	switch kw {
+	case "public":
+		var ok bool
+		if pub, ok = readQuoted(); !ok {
+			return 'q'
+		}
+		sys, hasSys = readQuoted()
+	case "system":
+		var ok bool
+		if sys, ok = readQuoted(); !ok {
+			return 'q'
+		}
+		hasSys = true
+	default:
+		return 'q'
+	}
+	_ = sys
+	has := func(p string) bool { return len(pub) >= len(p) && pub[:len(p)] == p }
+	for _, p := range []string{"-//w3c//dtd html 3.2", "-//ietf//dtd html", "-//w3c//dtd html 4.0 frameset//", "-//w3c//dtd html 4.0 transitional//", "-//w3c//dtd w3 html//", "-//netscape comm. corp.//dtd", "-//microsoft//dtd internet explorer"} {
+		if has(p) {
+			return 'q'
+		}
+	}
+	if pub == "html" || !hasSys && (has("-//w3c//dtd html 4.01 frameset//") || has("-//w3c//dtd html 4.01 transitional//")) {
+		return 'q'
+	}
+	if has("-//w3c//dtd xhtml 1.0 frameset//") || has("-//w3c//dtd xhtml 1.0 transitional//") || hasSys && (has("-//w3c//dtd html 4.01 frameset//") || has("-//w3c//dtd html 4.01 transitional//")) {
+		return 'l'
+	}
+	return 'n'
+}
+
+var verifDoctypes = []string{
+	"<!DOCTYPE html>", "<!doctype HTML>", "<!DOCTYPE html SYSTEM \"about:legacy-compat\">",
+	"<!DOCTYPE HTML PUBLIC \"-//W3C//DTD HTML 4.01//EN\" \"http://www.w3.org/TR/html4/strict.dtd\">",
+	"<!DOCTYPE HTML PUBLIC \"-//W3C//DTD HTML 4.01 Transitional//EN\" \"http://www.w3.org/TR/html4/loose.dtd\">",
+	"<!DOCTYPE HTML PUBLIC \"-//W3C//DTD HTML 4.01 Transitional//EN\">",
+	"<!DOCTYPE HTML PUBLIC \"-//W3C//DTD HTML 4.01 Frameset//EN\" \"http://www.w3.org/TR/html4/frameset.dtd\">",
+	"<!DOCTYPE html PUBLIC \"-//W3C//DTD XHTML 1.0 Transitional//EN\" \"http://www.w3.org/TR/xhtml1/DTD/xhtml1-transitional.dtd\">",
+	"<!DOCTYPE html PUBLIC \"-//W3C//DTD XHTML 1.0 Strict//EN\" \"http://www.w3.org/TR/xhtml1/DTD/xhtml1-strict.dtd\">",
+	"<!DOCTYPE html PUBLIC \"-//W3C//DTD XHTML 1.1//EN\" \"http://www.w3.org/TR/xhtml11/DTD/xhtml11.dtd\">",
+	"<!DOCTYPE HTML PUBLIC \"-//W3C//DTD HTML 3.2 Final//EN\">", "<!DOCTYPE HTML PUBLIC \"-//IETF//DTD HTML 2.0//EN\">", "<!DOCTYPE foo>",
+	"<!DOCTYPE HTML PUBLIC \"-//W3C//DTD HTML 4.0 Transitional//EN\" \"http://www.w3.org/TR/REC-html40/loose.dtd\">",
+	"<!DOCTYPE html PUBLIC \"-//W3C//DTD XHTML+RDFa 1.0//EN\" \"http://www.w3.org/MarkUp/DTD/xhtml-rdfa-1.dtd\">",
+	"<!doctype html public '-//w3c//dtd html 4.01 transitional//en'>", "<!DOCTYPE htmlx>", "<!DOCTYPE html PUBLIC \"HTML\">",
+}
+
+// VerifHTMLDoctypeMode (C03): the document mode the doctype selects is the same before and after.
+func VerifHTMLDoctypeMode(n int) {
+	dt := verifDoctypes[vChoice("doctype", len(verifDoctypes))]
+	pre := []string{"", " ", "<!--c-->"}[vChoice("pre", 3)]
+	doc := []byte(pre + dt + "<html><head><title>t</title></head><body><p>x</p></body></html>")
+	want := rdMode([]byte(dt))
+	o := &Minifier{KeepDocumentTags: vBool("KeepDocumentTags"), KeepComments: vBool("KeepComments")}
+	out, err := verifHTMLRun(append(make([]byte, 0, len(doc)+1), doc...), o)
+	vReach("after-call")
+	vOutput("out", out)
+	vAssert(err == nil, "accepted")
+	k := rhIndex(out, "<!")
+	for k >= 0 && rhHas(out, k, "<!--") {
+		e := k
+		for e < len(out) && !rhHas(out, e, "-->") {
+			e++
+		}
+		nk := rhIndex(out[e:], "<!")
+		if nk < 0 {
+			k = -1
+		} else {
+			k = e + nk
+		}
+	}
+	vAssert(k >= 0, "doctype kept: "+string(out))
+	got := rdMode(out[k:])
+	vAssert(got == want, "the doctype selects the same document mode (quirks / limited-quirks / no-quirks): "+dt+" => "+string(out))
+	vReach("end")
+}
